@@ -177,8 +177,9 @@ CHECKS = {
         "level": "exploration",
         "tests": [
             {"pkg": "leaderx", "run": "^TestC14_Sessions$", "quick": 800, "thorough": 20000},
+            {"pkg": "leaderx", "run": "^TestC14_Expiry$", "quick": 64, "thorough": 1600, "shards": {"quick": 8, "thorough": 16}, "shrinktime": "20s"},
         ],
-        "floors": {"takeover": 0.02, "leader_change": 0.2},
+        "floors": {"takeover": 0.02, "leader_change": 0.15, "session_expired": {"quick": 30, "thorough": 800}},
         "rule": "rapid state machine over a real RF=1 LeaderController with its real SessionManager: CreateSession (<=3 live), "
                 "generated writes on a 3-7 key pool under live/dead/no session (takeovers by plain puts and by other sessions, "
                 "deletes, range deletes, index declarations), KeepAlive on live and dead sessions, CloseSession, CloseSession "
@@ -188,7 +189,7 @@ CHECKS = {
                 "SESSION_DOES_NOT_EXIST), at a session end exactly the records the session owns at that log position "
                 "disappear and nothing else changes (full ordered dump compared with the model), live sessions and their "
                 "records survive leader changes and still accept heartbeats. Non-trivial: a takeover, a raced close, or a "
-                "close plus a leader change.",
+                "close plus a leader change. Second generator (TestC14_Expiry, real timers): 1-3 sessions with the smallest accepted timeout (2 s), each with a drawn fate - never kept alive, kept alive for 0.3-1.5 s and then abandoned, or kept alive every 100-500 ms until the end - ephemeral and plain records, take-overs, optionally a leader restart into a new term after 0.2-1.2 s. Oracle: an abandoned session still has its records 0.9 s before its deadline, and 2.5 s after it the records are gone, KeepAlive fails and nothing else changed (full comparison with the model); a kept session (largest heartbeat gap measured by the harness < 1.4 s) never fails a KeepAlive and keeps its records, also across the restart. Non-trivial there: at least one session expired.",
         "assumptions": ["session timeout 60 s in this test; expiry timing is not exercised here",
                         "a KeepAlive that does not return within 20 s is inconclusive"],
     },
